@@ -40,6 +40,9 @@ CHECKS["C09"] = ("exploration", "deterministic simulation with a harness-owned R
 CHECKS["C11"] = ("exploration", "deterministic simulation with a reference join server: loss / corruption / wrong key / foreign traffic / retries / re-joins; independent key derivation and 'applied iff valid' model compared with the device's session and H1 snapshot",
  "Every JoinRequest handed to the radio is decoded (EUIs in wire order, MIC under the root key); JoinSuccess must coincide with an authentic JoinAccept delivered in RX1/RX2 (judged by the reference codec), and then keys, address, counters, RX delay, RX1 offset, RX2 data rate and CFList must equal the reference (valid settings applied, invalid ones ignored, ambiguous ones either). Sampling over the JoinAccept content space and attempt histories.",
  "Trusted: reference codec (AES decrypt/encrypt duality self-tested), refregion.rs validity rules, H1 snapshot.", "6 (C11)")
+CHECKS["C07"] = ("exploration", "deterministic simulation, twin execution (2-safety / non-interference): the same seeded history with and without the frames the reference codec rejects, on two fresh devices with identical per-operation RNG seeds",
+ "Which frames are rejected is decided by the independent reference codec at delivery time; the twin script removes exactly those (kept frames are pinned to the delivered bytes) and both runs are compared operation by operation: every radio request (uplink bytes, TxConfig, RX configurations), timer request relative to TX end, response, delivered downlink and the H1 snapshot. Rejected frames are biased to arrive when there is state to lose (sticky answers, owed ACK). Sampling.",
+ "Trusted: reference codec verdicts; determinism of the device under the per-operation RNG reseeding (proven by the determinism self-test); the receptions themselves are excluded from the comparison. For an oversize frame the twin follows whichever allowed behaviour the device showed.", "6 (C07)")
 PENDING = {}
 
 def main():
